@@ -214,7 +214,9 @@ def check(ctx):
     c13.check_parse_options(ctx, prog, None)
     # the program looked up is the requested one as it resolves now (the prefix comes from a getcwd() of this very start: C03.P4g)
     from . import c03
-    c03.fresh_cwd_rule(ctx, prog)
+    # ... and what is handed to exec is that directory followed by argv[0] as given, not edited after composition (C03.P4b; the rule
+    # includes P4g)
+    c03.prepend_rules(ctx, prog)
     ctx.floor("C04.E1", 20)
     ctx.floor("C04.E3", 2)
     ctx.floor("C04.E5", 2)
